@@ -3,6 +3,9 @@ package main
 import (
 	"regexp"
 	"strings"
+	"time"
+
+	"github.com/metal-toolbox/audito-maldito/verif/vlib"
 )
 
 // Goroutine-dump parsing and hang classification. "Returns within a bounded
@@ -122,4 +125,47 @@ func classifyDump(d string) (bool, string) {
 		parkedRepo = parkedRepo[:4]
 	}
 	return true, strings.Join(parkedRepo, "; ")
+}
+
+// waitParked polls the process's own goroutine dump until a goroutine whose
+// stack contains fn is in the given state.
+func waitParked(fn, state string, timeout time.Duration) bool {
+	deadline := time.Now().Add(timeout)
+	for {
+		for _, g := range findG(parseDump(vlib.AllStacks()), fn) {
+			if g.State == state {
+				return true
+			}
+		}
+		if time.Now().After(deadline) {
+			return false
+		}
+		time.Sleep(200 * time.Microsecond)
+	}
+}
+
+// classifyStacks says whether the goroutine(s) running fn are parked.
+func classifyStacks(dump, fn string) (bool, string) {
+	gs := findG(parseDump(dump), fn)
+	if len(gs) == 0 {
+		return false, "no goroutine runs " + fn
+	}
+	var why []string
+	for _, g := range gs {
+		if !parkedState(g.State) {
+			return false, "goroutine " + g.ID + " is " + g.State
+		}
+		top := ""
+		if len(g.Frames) > 0 {
+			top = g.Frames[0]
+		}
+		for _, f := range g.Frames {
+			if strings.Contains(f, "audito-maldito/") && !strings.Contains(f, "/verif/") {
+				top = f
+				break
+			}
+		}
+		why = append(why, g.State+" in "+top)
+	}
+	return true, strings.Join(why, "; ")
 }
